@@ -62,6 +62,9 @@ type c09Op struct {
 	Off int64 `json:"off"`
 	// CancelUS > 0: the client cancels the request this many microseconds (fake) after issuing it.
 	CancelUS int64 `json:"cancel_us,omitempty"`
+	// SlowUS > 0: a slow client: every Flush of the response takes this many microseconds (fake), so that further
+	// chunks become due while the server is still delivering earlier ones.
+	SlowUS int64 `json:"slow_us,omitempty"`
 }
 
 type C09 struct{}
@@ -251,6 +254,9 @@ func (C09) Gen(rng *core.Rng, tier string, idx int) *core.Scenario {
 			remain := atoUS/1000 - op.Off
 			op.CancelUS = rng.Range64(0, remain)*1000 + 500
 		}
+		if op.CancelUS == 0 && rng.Chance(0.15) {
+			op.SlowUS = core.Pick(rng, []int64{1_000, 20_000, 120_000, 300_000, 700_000})
+		}
 		sc.AddOp(op)
 	}
 	return sc
@@ -272,6 +278,7 @@ type c09Writer struct {
 	writes  []c09Stamp
 	flushes []c09Stamp
 	t0      time.Time
+	slow    time.Duration // fault: time every Flush takes (slow client)
 }
 
 func (w *c09Writer) Header() http.Header { return w.hdr }
@@ -290,6 +297,9 @@ func (w *c09Writer) Write(b []byte) (int, error) {
 }
 func (w *c09Writer) Flush() {
 	w.flushes = append(w.flushes, c09Stamp{At: time.Since(w.t0), Off: len(w.body)})
+	if w.slow > 0 {
+		time.Sleep(w.slow) // fake time: the bubble's clock moves on while the handler is held up
+	}
 }
 
 // writeTimeOf returns the instant of the Write that delivered body offset off.
@@ -349,7 +359,7 @@ func (p *c09Panic) Panic(v interface{}, stack []byte) { p.val = fmt.Sprint(v); p
 
 // c09Serve issues one GET through the real router inside the bubble. cancelUS > 0 cancels the
 // request context at that fake offset. The handler runs in its own goroutine of the bubble.
-func c09Serve(srv *hx.Srv, target string, cancelUS int64, maxWait time.Duration) *c09Served {
+func c09Serve(srv *hx.Srv, target string, cancelUS, slowUS int64, maxWait time.Duration) *c09Served {
 	ctx, cancel := context.WithCancel(context.Background())
 	defer cancel()
 	req, err := http.NewRequestWithContext(ctx, "GET", "http://sim.test"+target, nil)
@@ -360,7 +370,7 @@ func c09Serve(srv *hx.Srv, target string, cancelUS int64, maxWait time.Duration)
 	req.RemoteAddr = "192.0.2.1:1234"
 	pe := &c09Panic{}
 	req = middleware.WithLogEntry(req, pe)
-	w := &c09Writer{hdr: http.Header{}, t0: time.Now()}
+	w := &c09Writer{hdr: http.Header{}, t0: time.Now(), slow: time.Duration(slowUS) * time.Microsecond}
 	done := make(chan time.Duration, 1)
 	out := &c09Served{w: w, cancelAt: -1, done: done}
 	go func() {
@@ -955,7 +965,11 @@ func (c *c09Ctx) runOp(i int, op c09Op) {
 	// ---- the chunked request ----
 	segDurMS := c09Ceil(c09MediaMS(refSegDur, ref.Timescale))
 	maxWait := time.Duration(3*segDurMS+60_000) * time.Millisecond
-	sv := c09Serve(c.srv, target, op.CancelUS, maxWait)
+	if op.SlowUS > 0 {
+		maxWait += 400 * time.Duration(op.SlowUS) * time.Microsecond
+		res.Count("fault.slow-client")
+	}
+	sv := c09Serve(c.srv, target, op.CancelUS, op.SlowUS, maxWait)
 	wr := sv.w
 	res.Event("op%d %s t=%d off=%d -> %d bytes=%d writes=%d ret=%v cancel=%v", i, target, reqMS, op.Off, wr.status, len(wr.body),
 		len(wr.writes), sv.retAt, sv.cancelAt)
@@ -1408,6 +1422,8 @@ func (c *c09Ctx) runOp(i int, op c09Op) {
 			limit = reqMS
 		}
 		limit += segDurMS
+		// a slow client holds the handler for as long as its flushes take
+		limit += (int64(len(wr.flushes))*op.SlowUS + 999) / 1000
 		if c09Sub(wallAt(sv.retAt), c09Rat(limit, 1)).Sign() > 0 {
 			res.Violate("C09.handler-returns", sig("kind", "completion-unbounded"),
 				"%s at %d: segment ends at %s ms, response finished at %s ms", target, reqMS, c09F(endWall), c09F(wallAt(sv.retAt)))
